@@ -242,6 +242,18 @@ def _main_check(ctx: Ctx) -> None:
         ctx.check(ok, "SAME", f"{FN}: every track is split by the one bar length", function=FN,
                   construct="a track is split by something other than [bar length]", message=short(c), file=fi.file, node=c)
 
+    # the result of the split is used as it is: bound directly from the call, on every path of the track round
+    from ..astutil import path_conditions
+    for c in splits:
+        st_ = c
+        while not isinstance(st_, ast.stmt):
+            st_ = st_._parent
+        direct = isinstance(st_, ast.Assign) and st_.value is c and not path_conditions(st_, track_loop)
+        ctx.check(direct, "SAME", f"{FN}: every track is split in every round (`{short(st_, 70)}`)", function=FN,
+                  construct="the per-track split is skipped or replaced under some condition",
+                  message=f"`{short(st_, 90)}`: a track that is not split in a round contributes no bar content for it (trailing rests, late signatures "
+                          f"or padding of a track without further notes would be dropped)", file=fi.file, node=st_)
+
     # --- ONE
     res = None
     for r in walk_local(fi.node):
